@@ -26,6 +26,14 @@ impl GenerationPass for NodeDirectionPass {
                 jump_to_node.insert_prev(Rc::clone(&node));
             }
 
+            // A call gets no edge to its target, but the target has to be an
+            // instruction all the same
+            if let Some(label) = node.calls_to() {
+                if !cfg.iter().any(|n| n.labels.contains(&label)) {
+                    return Err(Box::new(CfgError::LabelWithoutInstruction(label.clone())));
+                }
+            }
+
             // Linearly scan for nexts and prevs
             if let Some(prev) = prev {
                 node.insert_prev(Rc::clone(&prev));
